@@ -39,7 +39,9 @@ EnumForms == {"plain", "extras", "error_ty", "error_cb", "skip_ok", "skip_group"
               "skip_nonutf8", "skip_nonutf8_group", "skip_nullable_prio", "skip_greedy", "skip_undef_sub", "skip_lookstart",
               "sub_dup", "sub_bad_name", "sub_undef_ref", "sub_nonutf8", "source_deprecated", "error_attr_variant", "const_generic", "dup_error_cb",
               \* tokens after a `name "literal"` item
-              "skip_lit_tail", "skip_lit_tail_lit"}
+              "skip_lit_tail", "skip_lit_tail_lit",
+              \* a subpattern source that is not a regex on its own
+              "sub_unbalanced", "sub_flag_cut"}
 
 Seconds == {"none", "other_ok", "same_tok", "overlap_same_prio"}
 
